@@ -40,6 +40,7 @@ def coder_common(ctx):
 
 
 def c01(ctx):
+    misc.r_vtform(ctx)
     purity.r_state_closure(ctx, SW + 'encode', SW + 'decode')
     coder_common(ctx)
     walk.r_ahead(ctx)
@@ -111,6 +112,7 @@ def c11(ctx):
     exc.r_exc(ctx, SW + 'find_vertices', {'ValueError'}, floor=1)
     exc.r_exc(ctx, SW + 'connect_valid_graph', {'ValueError'}, floor=2)
     exc.r_typed_dispatch(ctx, [SW + 'find_vertices'], floor=1)
+    purity.r_monitor(ctx)       # both functions drive the progress monitor; it is in their closure
 
 
 def c13(ctx):
@@ -133,6 +135,8 @@ def c04(ctx):
     repair.r_prog(ctx, SW + 'encode', skip_whiles_in=(SW + 'encode',))
     graph2.r_arb(ctx)
     graph2.r_cascade(ctx)
+    graph2.r_fix(ctx)
+    walk.r_loop_test(ctx)
     ctx.run.notes.append('termination on out-degree-1 chains depends on the generated graph (C03) and is not decided')
 
 
@@ -157,6 +161,7 @@ def c10(ctx):
     purity.r_state_closure(ctx, SW + 'repair_dna')
     repair.r_prog(ctx, SW + 'repair_dna')
     repair.r_heap_guard(ctx)
+    repair.r_arity(ctx, SW + 'repair_dna')
     exc.r_exc(ctx, SW + 'repair_dna', set(), floor=0)
     exc.r_typed_dispatch(ctx, ctx.closure(SW + 'repair_dna'), floor=1)
     exc.r_typed_index(ctx, SW + 'set_vt')
@@ -208,6 +213,7 @@ def c18(ctx):
 
 
 def c19(ctx):
+    graph2.r_bfs(ctx)            # the scores are unions of breadth-first leaf sets
     purity.r_state_closure(ctx, SW + 'remove_nasty_arc')
     misc2.r_pair(ctx)
     graph.r_shift(ctx, ('obtain_latters',), with_latter=True)
